@@ -716,6 +716,9 @@ ExpressionEvaluator::evaluate_typed_expression_internal(const ASTNode *node) {
                         return true;
                     }
                 }
+            } catch (const ArrayIndexOutOfBoundsError &) {
+                // not a failed lookup: there is no such element
+                throw;
             } catch (const std::exception &) {
             }
 
